@@ -312,6 +312,23 @@ class SymFile(object):
             self.pos = t.as_long() if z3.is_bv_value(t) else BV64(t)
         return len(bs)
 
+    def fileno(self):
+        return self
+
+    def pwrite_direct(self, data, off):
+        """os.pwrite on this handle's descriptor: reaches the disk at once, *not* through the write buffer"""
+        bs = byte_terms(data)
+        off = bv(off)
+        arr, length = self.disk.files[self.name]
+        for i, b in enumerate(bs):
+            arr = z3.Store(arr, off + i, b)
+        end = z3.simplify(off + len(bs))
+        side().append(z3.BVAddNoOverflow(off, z3.BitVecVal(len(bs), W), False))
+        newlen = z3.If(z3.UGT(end, bv(length)), end, bv(length))
+        self.disk.files[self.name] = [arr, BV64(z3.simplify(newlen))]
+        self.disk.log.append((self.name, off, list(bs)))
+        return len(bs)
+
     def close(self):
         if not self.closed:
             self.flush()
